@@ -67,4 +67,161 @@ def mean [Zero C] [Add C] [Div C] [NatCast C] (xs : List C) : C :=
 def pvar [Zero C] [Add C] [Sub C] [Mul C] [Div C] [NatCast C] (xs : List C) : C :=
   mean (xs.map (fun x => (x - mean xs) * (x - mean xs)))
 
+/-! ## the whole matrix: `gen.merge_mode_shapes` with its loop over modes and its exceptions -/
+
+/-- `Except`-valued map, first error wins (a Python loop that may raise) -/
+def mapE {α β : Type} (f : α → Except String β) : List α → Except String (List β)
+  | [] => .ok []
+  | a :: as =>
+    match f a with
+    | .error e => .error e
+    | .ok b =>
+      match mapE f as with
+      | .error e => .error e
+      | .ok bs => .ok (b :: bs)
+
+/-- `P[:, k]` of a matrix given by its rows (`[row][mode]`) -/
+def column [Inhabited C] (p : List (List C)) (k : Nat) : List C := p.map (fun row => row.getD k default)
+
+/-- `P.shape[1]` of a matrix given by its rows -/
+def width (p : List (List C)) : Nat := (p.headD []).length
+
+/-- the exceptions of one pass of the loop over the later setups (`i = 1 .. Nsetup-1`) of
+    `merge_mode_shapes`, in the order in which they are raised: `reflist[i]` missing
+    (`IndexError`), a reference position outside the setup's rows (`IndexError` of the fancy
+    index / of `np.delete`), `MSF` on reference vectors of different lengths (`Exception`).
+    `ns` are the row counts of the later setups, `nref = len(reflist[0])`. -/
+def tailChecks (nref : Nat) : List Nat → List (List Nat) → Except String Unit
+  | [], _ => .ok ()
+  | _ :: _, [] => .error "IndexError"
+  | n :: ns, ref :: rs =>
+    if ref.any (fun i => decide (n ≤ i)) then .error "IndexError"
+    else if ref.length ≠ nref then .error "Exception"
+    else tailChecks nref ns rs
+
+/-- `M = Nref + np.sum([MSarr_list[i].shape[0] - Nref for i in range(Nsetup)])` (Python integers:
+    may be negative) -/
+def totalRows (nref : Nat) (ns : List Nat) : Int :=
+  (nref : Int) + (ns.map (fun (n : Nat) => (n : Int) - (nref : Int))).foldl (· + ·) 0
+
+/-- **`gen.merge_mode_shapes(MSarr_list, reflist)`** on matrices given by their rows
+    (`phis[i][row][mode]`; rectangular — a numpy array cannot be ragged, a ragged list is rejected
+    like a differing mode count): statement by statement
+    `Nmodes = MSarr_list[0].shape[1]`, `Nref = len(reflist[0])`, `M`, the mode-count check
+    (`ValueError`), `np.zeros((M, Nmodes))` (`ValueError` for negative `M`), then for every mode
+    `k` the column `mergedCol` of the `k`-th columns with the exceptions of the loop body
+    (`IndexError`, `Exception` of `MSF`, `ValueError` of the assignment
+    `merged_mode_shapes[:, k] = merged_mode_k` when the lengths differ), and the result
+    matrix (`M` rows) by rows.  Reference lists beyond the number of setups are never read. -/
+def mergeModeShapes [Zero C] [Add C] [Mul C] [Div C] [Inhabited C] (re : C → C)
+    (phis : List (List (List C))) (refs : List (List Nat)) : Except String (List (List C)) :=
+  match phis, refs with
+  | [], _ => .error "IndexError"
+  | _ :: _, [] => .error "IndexError"
+  | p0 :: ps, r0 :: rs =>
+    let nmodes := width p0
+    let nref := r0.length
+    let M := totalRows nref ((p0 :: ps).map List.length)
+    if (p0 :: ps).any (fun p => p.any (fun row => row.length != nmodes)) then .error "ValueError"
+    else if M < 0 then .error "ValueError"
+    else
+      match mapE (fun k =>
+          if r0.any (fun i => decide (p0.length ≤ i)) then .error "IndexError"
+          else match tailChecks nref (ps.map List.length) rs with
+            | .error e => .error e
+            | .ok () =>
+              let col := mergedCol re ((p0 :: ps).map (column · k)) (r0 :: rs)
+              if (col.length : Int) ≠ M then .error "ValueError" else .ok col)
+        (List.range nmodes) with
+      | .error e => .error e
+      | .ok cols => .ok ((List.range M.toNat).map fun r => cols.map (fun c => c.getD r default))
+
+/-! ## `MultiSetup_PoSER.merge_results` -/
+
+/-- what `merge_results` reads of one algorithm of one setup: `alg.result.{Fn, Xi, Phi}` -/
+structure AlgRes (K C : Type) where
+  Fn : List K
+  Xi : List K
+  Phi : List (List C)
+deriving Inhabited, DecidableEq, Repr
+
+/-- `MsPoserResult` -/
+structure PoserRes (K C : Type) where
+  Phi : List (List C)
+  Fn : List K
+  Fn_cov : List K
+  Xi : List K
+  Xi_cov : List K
+deriving DecidableEq, Repr
+
+/-- `alg_groups.setdefault(key, []).append(a)` on an insertion-ordered dictionary -/
+def groupAppend {α : Type} (g : List (String × List α)) (key : String) (a : α) : List (String × List α) :=
+  match g with
+  | [] => [(key, [a])]
+  | (k, as) :: rest => if k = key then (k, as ++ [a]) :: rest else (k, as) :: groupAppend rest key a
+
+/-- the inner loop `for ii, alg in enumerate(setup.algorithms.values())`, `ii` counted from `i0`:
+    `names[ii]` raises `IndexError` when there are more algorithms than names -/
+def groupSetup {α : Type} (names : List String) :
+    List (String × List α) → Nat → List α → Except String (List (String × List α))
+  | g, _, [] => .ok g
+  | g, ii, a :: as =>
+    match names[ii]? with
+    | none => .error "IndexError"
+    | some key => groupSetup names (groupAppend g key a) (ii + 1) as
+
+/-- the grouping loops of `merge_results`: setups in order, algorithms by position, key
+    `self.names[ii]` -/
+def algGroups {α : Type} (names : List String) :
+    List (String × List α) → List (List α) → Except String (List (String × List α))
+  | g, [] => .ok g
+  | g, s :: ss =>
+    match groupSetup names g 0 s with
+    | .error e => .error e
+    | .ok g' => algGroups names g' ss
+
+/-- `np.mean(a, axis=0)` of `a = np.array([...])` given by its rows (`[setup][mode]`) -/
+def colMean [Zero C] [Add C] [Div C] [NatCast C] (a : List (List C)) : List C :=
+  (List.range (width a)).map fun k => mean (a.map (fun row => row.getD k 0))
+
+/-- `np.std(a, axis=0)`: the square root (`sqrt`: `np.sqrt`, a parameter) of the mean of the
+    squared deviations from the mean (`ddof = 0`) -/
+def colStd [Zero C] [Add C] [Sub C] [Mul C] [Div C] [NatCast C] (sqrt : C → C) (a : List (List C)) : List C :=
+  (List.range (width a)).map fun k => sqrt (pvar (a.map (fun row => row.getD k 0)))
+
+/-- the body of the loop over the algorithm groups of `merge_results`: stack `Fn`, `Xi`
+    (`np.array` of per-setup vectors: `ValueError` when their lengths differ), column means,
+    `np.std(...)/mean`, `merge_mode_shapes(all_phi, self.ref_ind)`, `MsPoserResult(...)`.
+    `K`: the real numbers of `Fn`/`Xi`, `C`: the numbers of `Phi`. -/
+def mergeGroup {K : Type} [Zero K] [Add K] [Sub K] [Mul K] [Div K] [NatCast K]
+    [Zero C] [Add C] [Mul C] [Div C] [Inhabited C] (sqrt : K → K) (re : C → C)
+    (algs : List (AlgRes K C)) (refInd : List (List Nat)) : Except String (PoserRes K C) :=
+  let allFn := algs.map (·.Fn)
+  let allXi := algs.map (·.Xi)
+  let allPhi := algs.map (·.Phi)
+  if allFn.any (fun v => v.length != width allFn) then .error "ValueError"
+  else if allXi.any (fun v => v.length != width allXi) then .error "ValueError"
+  else
+    let fnMean := colMean allFn
+    let xiMean := colMean allXi
+    let fnCov := List.zipWith (· / ·) (colStd sqrt allFn) fnMean
+    let xiCov := List.zipWith (· / ·) (colStd sqrt allXi) xiMean
+    match mergeModeShapes re allPhi refInd with
+    | .error e => .error e
+    | .ok Phi => .ok ⟨Phi, fnMean, fnCov, xiMean, xiCov⟩
+
+/-- **`MultiSetup_PoSER.merge_results()`**: `setups[i][ii]` is what the `ii`-th algorithm of
+    setup `i` carries; the returned dictionary in insertion order (one entry per distinct name). -/
+def mergeResults {K : Type} [Zero K] [Add K] [Sub K] [Mul K] [Div K] [NatCast K]
+    [Zero C] [Add C] [Mul C] [Div C] [Inhabited C] (sqrt : K → K) (re : C → C)
+    (names : List String) (setups : List (List (AlgRes K C))) (refInd : List (List Nat)) :
+    Except String (List (String × PoserRes K C)) :=
+  match algGroups names [] setups with
+  | .error e => .error e
+  | .ok groups =>
+    mapE (fun (g : String × List (AlgRes K C)) =>
+      match mergeGroup sqrt re g.2 refInd with
+      | .error e => .error e
+      | .ok r => .ok (g.1, r)) groups
+
 end PV.Merge
